@@ -156,6 +156,68 @@ func runC03(w *World, r *Report) {
 	}
 
 	// 3b'. an index entry is released only together with its vertex or as the roll-back of its own reservation
+	// the verdict "this tip is invalid" and the drop of the tip (vertex and index entry) are one critical section: a verdict
+	// carried across an unlock is stale — the tip may have been dropped by somebody else and its transaction sealed again,
+	// and the release by transaction hash then takes the successor's entry
+	r.rule("verdict-and-drop-in-one-critical-section", "in the admission functions every removeTrxInVertex of a parent's transaction is reached from the failure edge of validateLeaf for that parent without an unlock of the ledger lock on the way (and only from there)", 2)
+	for _, spec := range []string{"addLeafMemorized", "getValidLeaves"} {
+		f := w.fx(r, "accountant", "AccountingBook", spec)
+		if f == nil {
+			continue
+		}
+		for _, g := range withHelpers(f.fn, 1) {
+			for _, c := range callsTo(g, nRemoveTrx) {
+				_, a := callArgs(c)
+				hp := pathOf(a[0])
+				if !strings.HasSuffix(hp, ".Transaction.Hash") {
+					continue
+				}
+				vp := strings.TrimSuffix(hp, ".Transaction.Hash")
+				// validations of that very vertex in this function
+				var fails []Edge
+				for _, vc := range callsTo(g, cn("accountant", "*AccountingBook", "validateLeaf")) {
+					_, va := callArgs(vc)
+					if len(va) >= 2 && pathOf(va[1]) == vp {
+						fails = append(fails, failErrNonNil(vc)...)
+					}
+				}
+				if len(fails) == 0 {
+					own := false
+					for _, sc := range callsTo(g, nSaveTrx) {
+						_, sa := callArgs(sc)
+						if len(sa) > 0 && pathOf(sa[0]) == hp {
+							own = true
+						}
+					}
+					if own || len(callsTo(g, cn("accountant", "*AccountingBook", "validateLeaf"))) == 0 {
+						continue // a roll-back of the function's own reservation: judged by index-removal-paired
+					}
+					r.bad("verdict-and-drop-in-one-critical-section", shortFn(g)+"/removeTrxInVertex("+hp+")", lineOf(w, c), "the index entry of an invalid tip is released in the critical section that found it invalid",
+						"the entry released belongs to "+vp+", which is not the value any validateLeaf of this function was called on: the verdict was carried over in a variable")
+					continue
+				}
+				crossed := ""
+				for _, fe := range fails {
+					walkFrom(nil, fe.To(), nil, func(x ssa.Instruction) bool {
+						if x == c.(ssa.Instruction) {
+							return true
+						}
+						if uc, isCall := x.(ssa.CallInstruction); isCall {
+							if _, isDefer := x.(*ssa.Defer); !isDefer {
+								if op, _, id, isLock := lockOp(uc); isLock && op == "unlock" && id == abMux {
+									crossed = lineOf(w, x)
+								}
+							}
+						}
+						return crossed != ""
+					})
+				}
+				r.check(behind(c.(ssa.Instruction), fails) && crossed == "", "verdict-and-drop-in-one-critical-section", shortFn(g)+"/removeTrxInVertex("+pathOf(a[0])+")", lineOf(w, c),
+					"the index entry of an invalid tip is released in the critical section that found it invalid", "between the failed validateLeaf and the release the ledger lock is given up at "+crossed+" (or the release is reachable without that verdict): by then the tip may be gone and its transaction sealed in another vertex, whose entry the release deletes")
+			}
+		}
+	}
+
 	r.rule("index-removal-paired", "every removeTrxInVertex(h) is dominated by the successful reservation of h in the same operation (roll-back) or by DeleteVertex of the vertex that carries h (a checkpointed vertex is in neither situation, so its entry stays for ever)", 4)
 	for _, fn := range w.RepoFuncs("accountant") {
 		for _, c := range callsTo(fn, nRemoveTrx) {
